@@ -5,22 +5,31 @@ Model: AgVerif.Axml (Model/Axml.lean: ARSCHeader, StringBlock, AXMLParser, AXMLP
 with the two C26 fixes applied).  Spec: AgVerif.Spec.Axml (abstract tree = `Node`, chunk event sequence of a tree, text normal
 form, XML character classes, length-prefix encodings of ResStringPool).
 
-What is proved: the printer's element stack rebuilds exactly the tree whose chunk events it is fed (any tree, any depth, text
-chunks anywhere); `_fix_name` / `_fix_value` are the identity on legal names / values and always produce legal values; the value
-string of each integer-like Res_value type; the four length-prefix forms of pool strings decode to the encoded length.
-What is not proved here (covered by the correspondence and the oracle only): the composition over whole files (offset tables,
-chunk sizes: `C26_full`), UTF-8 / UTF-16 character decoding round trips, and everything inside lxml.
+What is proved: the whole-file round trip `axml_roundtrip` (= `C26_full`): for every well-formed document and every encoding
+choice (UTF-8 or UTF-16 pool, narrow or forced-wide length prefixes, any pool order, with or without resource map) the printer
+run on the encoded file returns the tree the document denotes.  Its ingredients are theorems of their own: UTF-16 / UTF-8
+character round trips (`utf16_roundtrip`, `utf8_roundtrip`, with the behaviour on lone surrogates), whole string pools
+(`pool_roundtrip`: header, offset table, both encodings, both prefix widths), the parser's event stream on an encoded document
+(`chunk_events`), tree building from events (`axml_roundtrip_events_partial`, `axml_roundtrip_normal`), `_fix_name` / `_fix_value`
+identities, the value string of each integer-like Res_value type.
+What is not proved here (covered by the correspondence and the oracle only): everything inside lxml and CPython's codecs (the
+model transcribes them), float / dimension / fraction renderings (C27).
 -/
 import AgVerif.Proof.Axml
 import AgVerif.Proof.AxmlPool
+import AgVerif.Proof.AxmlFile
 namespace AgVerif.C26
 open AgVerif.Axml AgVerif.Spec.Axml AgVerif.Proof.Axml AgVerif.Gen.AxmlConsts
 
-/-- The full property for a given file encoder (the independent writer harness/axmlwriter.py plays this role in the
-    correspondence): every well-formed tree is printed back from its file.  Not proved; see the header. -/
-def C26_full (encode : Node → Bool → Bytes) (opq : Nat → Nat → Str) : Prop :=
-  ∀ (t : Node) (utf8 : Bool), isText t = false → Normal t → TextsOk t →
-    printAxml opq (encode t utf8) = .ok (true, some t)
+/-- The full property: every well-formed document (`wfDoc`: root element; XML names, plain namespace URIs / prefixes, XML
+    strings as texts and attribute values; a prefix bound to one URI; every string in the pool and fit for the pool's flavour;
+    a resource map that does not rename an attribute; file shorter than 2^32 bytes), whose tree is in text normal form, is
+    printed back from its file `encodeAxml E d` (Spec/AxmlFile.lean, the layout of the independent writer) — for every encoding
+    choice `E` (UTF-8 / UTF-16, narrow / wide length prefixes, pool order, with / without resource map).
+    Proved below: `axml_roundtrip`. -/
+def C26_full (opq : Nat → Nat → Str) : Prop :=
+  ∀ (E : Enc) (d : SNode), wfDoc opq E d = true → Normal (treeOf opq d) →
+    printAxml opq (encodeAxml E d) = .ok (true, some (treeOf opq d))
 
 /-- Tree building (`axml_roundtrip` at the level of chunk events): for every element tree, feeding the printer the events
     START_ELEMENT / CDATA / END_ELEMENT of the tree followed by END_DOCUMENT yields that tree, text chunks merged in
@@ -209,7 +218,42 @@ theorem pool_roundtrip (B : Bytes) (p : Nat) (utf8 wide : Bool) (strings : List 
   obtain ⟨h, c0, h1, _, _, h2⟩ := parse_pool B p utf8 wide strings tail hsz hB
   exact ⟨h, c0, _, h1, h2, fun i x hi => poolOf_get utf8 wide strings hs i x hi⟩
 
+/-! ### whole files (`chunk_events`, `axml_roundtrip`) -/
+
+/-- The parser on an encoded document: `AXMLParser.__init__` accepts it, and calling `_do_next` until END_DOCUMENT delivers
+    exactly the START_ELEMENT / CDATA / END_ELEMENT events of the document's tree in document order — element and attribute
+    names, namespace URIs and typed attribute values resolved through the pool and the resource map, `nsmap` computable at every
+    START_ELEMENT; START_NAMESPACE / END_NAMESPACE chunks only update the namespace stack.  The fuel `file length + 1`
+    suffices (every iteration of `_do_next` consumes a chunk header). -/
+theorem chunk_events (opq : Nat → Nat → Str) (E : Enc) (d : SNode) (hwf : wfDoc opq E d = true) :
+    ∃ s0, parserInit (encodeAxml E d) = .ok s0 ∧ s0.valid = true ∧
+      parserEvents opq ((encodeAxml E d).length + 1) s0 = .ok (events (treeOf opq d)) :=
+  events_encoded opq E d hwf
+
+/-- Whole-file round trip: the printer on the encoded file is valid and returns the document's tree with adjacent text chunks
+    merged and empty ones dropped (XML cannot tell them apart) … -/
+theorem axml_roundtrip_norm (opq : Nat → Nat → Str) (E : Enc) (d : SNode) (hwf : wfDoc opq E d = true) :
+    printAxml opq (encodeAxml E d) = .ok (true, some (norm (treeOf opq d))) :=
+  print_encoded opq E d hwf
+
+/-- … hence exactly the tree when it is in text normal form: the full property. -/
+theorem axml_roundtrip (opq : Nat → Nat → Str) : C26_full opq := by
+  intro E d hwf hn
+  rw [print_encoded opq E d hwf, norm_normal _ hn]
+
 /-! Non-vacuity -/
+def exUri : Str := lit "http://schemas.android.com/apk/res/android"
+def exEnc (utf8 wide : Bool) (res : Option (List Nat)) : Enc :=
+  ⟨utf8, wide, [lit "name", lit "manifest", lit "android", exUri, [0x68, 0xE9, 0x20AC, 0x1F600], lit "app", lit "v", lit "x"], res⟩
+def exDoc : SNode :=
+  .elem 1 (lit "manifest") none [(lit "android", exUri)]
+    [⟨some exUri, lit "name", 0xFFFFFFFF, 3, 0, [0x68, 0xE9, 0x20AC, 0x1F600]⟩, ⟨none, lit "v", 0xFFFFFFFF, 0x10, 0xFFFFFFFF, []⟩]
+    [.text 2 (lit "x"), .elem 3 (lit "app") (some exUri) [] [⟨none, lit "v", 7, 0x12, 1, []⟩] [], .text 2 (lit "x")]
+example : wfDoc (fun _ _ => []) (exEnc true false none) exDoc = true := by decide +kernel
+example : wfDoc (fun _ _ => []) (exEnc false true (some [0x1010003, 0x7f010000])) exDoc = true := by decide +kernel
+example : Normal (treeOf (fun _ _ => []) exDoc) := by simp only [exDoc, treeOf, treeOfL, Normal, NormalL]; decide
+example : printAxml (fun _ _ => []) (encodeAxml (exEnc true false none) exDoc) = .ok (true, some (treeOf (fun _ _ => []) exDoc)) :=
+  axml_roundtrip _ _ _ (by decide +kernel) (by simp only [exDoc, treeOf, treeOfL, Normal, NormalL]; decide)
 example : StrOk true [0x68, 0xE9, 0x20AC, 0x1F600] ∧ StrOk false [0x68, 0xE9, 0x20AC, 0x1F600, 0xFFFD, 0] := by decide
 example : enc8 [0x68, 0xE9, 0x20AC, 0x1F600] = [0x68, 0xC3, 0xA9, 0xE2, 0x82, 0xAC, 0xF0, 0x9F, 0x98, 0x80] := by decide
 example : (poolOf true false [[0x61], [], [0x1F600, 0x62]]).get 2 = .ok [0x1F600, 0x62] := by rfl
